@@ -68,6 +68,7 @@ func c21NewEnv(st *c21State) *c21Env {
 	for _, kv := range c21IndirVars {
 		e.vars[kv[0]] = expand.Variable{Set: true, Kind: expand.String, Str: kv[1]}
 	}
+	e.vars[c21WordVar[0]] = expand.Variable{Set: true, Kind: expand.String, Str: c21WordVar[1]}
 	switch st.Kind {
 	case "scalar":
 		if st.Scalar != nil {
